@@ -1,6 +1,8 @@
-CONSTANTS Params = {1, 2}
+CONSTANTS Params = {1, 2, 3}
  Data = {1, 2}
  Dim <- DimOf
+ Canon <- CanonOf
+ HasFitTransform = TRUE
  Thresholds = {1}
  ValSets = {1}
  Strategies = {"accuracy"}
